@@ -400,6 +400,13 @@ Definition run_tconv_pad (a : list Z) : list Z :=
   | _ => [-1]
   end.
 
+(* CMD conv_pads = 19 : same input stride k d -> [front behind] *)
+Definition run_conv_pads (a : list Z) : list Z :=
+  match a with
+  | [same; input; stride; k; d] => let '(f, b) := conv_pads same input stride k d in [f; b]
+  | _ => [-1]
+  end.
+
 Definition run (cmd : Z) (a : list Z) : list Z :=
   if cmd =? 1 then run_driver_payload a
   else if cmd =? 2 then run_driver_parse a
@@ -419,4 +426,5 @@ Definition run (cmd : Z) (a : list Z) : list Z :=
   else if cmd =? 16 then run_prelu_kind a
   else if cmd =? 17 then run_axis_offsets a
   else if cmd =? 18 then run_tconv_pad a
+  else if cmd =? 19 then run_conv_pads a
   else [-1].
